@@ -1942,6 +1942,11 @@ TARGETS2 = {
         ("varintDimension.c", "varintDimensionPairEntrySetBit", "dimEntrySetBit"),
         ("varintDimension.c", "varintDimensionPairEntryToggleBit", "dimEntryToggleBit"),
     ],
+    "CElias": [
+        ("varintElias.c", "floorLog2", "eliasFloorLog2"),
+        ("varintElias.c", "varintEliasGammaBits", "eliasGammaBits"),
+        ("varintElias.c", "varintEliasDeltaBits", "eliasDeltaBits"),
+    ],
     "CPFOR": [
         ("import", "CTagged", TAGGED_IMPORTS),
         ("import", "CTaggedAdd", "varintTagged.c:varintTaggedGet64:taggedGet64"),
